@@ -36,6 +36,7 @@ def _nest(rng, level, st):
         st['leaf'] += 1
         if r < 0.45: return 'rec leaf%d' % st['leaf']
         if r < 0.6: return 'bomb %d %s' % (st['leaf'], rng.choice(('err', 'typeerr', 'throw')))
+        if r < 0.64: return 'dload /lobj %d' % st['maxdepth']
         if r < 0.7: return 'deep %d' % rng.randint(1, 4)
         if r < 0.8: return 'spend %d' % rng.randint(1, 6)
         if r < 0.9: return 'co q%d %d rec later' % (st['leaf'], rng.randint(1, 3))
@@ -68,9 +69,10 @@ def gen(rng, tier, i):
     p.file('mcfg.h', mcfg({'EH_CATCH': 1} if r0 < 0.3 else ({'EH_CATCH1': 1} if r0 < 0.5 else {})))
     p.cfg('Port', '4000:telnet')
     p.cfg('MaxEvaluationCost', 200000)
-    p.cfg('MaxCallDepth', rng.choice((30, 50)))
+    mcd = rng.choice((30, 50))
+    p.cfg('MaxCallDepth', mcd)
     p.cfg('MaxInheritDepth', 3)
-    st = {'leaf': 0, 'catch': 0}
+    st = {'leaf': 0, 'catch': 0, 'maxdepth': mcd + 2}
     kind = rng.choice(('cmd', 'cmd', 'cmd', 'netdead', 'callout', 'heartbeat', 'edwrite'))
     p.opt('c05_kind', kind)
 
@@ -84,6 +86,8 @@ def gen(rng, tier, i):
         for hk in (('id', 'init', 'mod', 'catch_tell', 'pid') + (('x',) if ob == 'b' else ()) if ob != 'me' else ('x',)):
             if rng.random() < 0.5:
                 cmd('sc %s %s %s' % (ob, hk, ','.join(_nest(rng, 1, st) for _ in range(rng.randint(1, 2)))))
+    # the fixed probe evaluation, once before anything has failed
+    cmd('probe', 1)
     if kind == 'cmd':
         ops = [_nest(rng, 0, st) for _ in range(rng.randint(1, 3))]
         if rng.random() < 0.3: ops.insert(rng.randint(0, len(ops)), _nested_efun(rng, 0, st))
@@ -189,9 +193,13 @@ def check_base(plan, res):
         v.append(Violation(PROP, 'catch-frame', 'frame state differs after catch: ' + _recs(res, 'CATCHBAD')[0], PROP + '/catch/frame-not-restored'))
     v += _efun_results(res)
     pr = _recs(res, 'PROBE')
-    half = len(pr) // 2
-    if pr[:half] != pr[half:]:
-        v.append(Violation(PROP, 'probe', 'probe evaluation differs before/after a natural error: %s vs %s' % (pr[:half], pr[half:]), PROP + '/probe/differs'))
+    segs = []
+    for x in pr:
+        if x.startswith('PROBE catch=') or not segs: segs.append([])
+        segs[-1].append(x)
+    bad = next((sg for sg in segs[1:] if sg != segs[0]), None)
+    if bad is not None:
+        v.append(Violation(PROP, 'probe', 'probe evaluation differs before/after a natural error: %s vs %s' % (segs[0], bad), PROP + '/probe/differs'))
     return v
 
 
